@@ -8,9 +8,10 @@ from pyvc.driver import Extra
 
 ID = "C14"
 LEVEL = "exploration"
-SIDECARS = []
-TARGETS = []
-TECHNIQUE = ("site contracts on the five time sites (structural, from the AST) + bounded run-time check of the roll-up "
+SIDECARS = ["contracts.rates"]
+TARGETS = ["Hardware.get_config", "Hardware.get_frequency", "Component.__init__", "Component.get_num_instances",
+           "MemoryComponent.get_bandwidth"]
+TECHNIQUE = ("contracts on the rate getters (clock of the Einsum's own configuration, declared bandwidth, declared instance count: SMT) + site contracts on the five time sites (structural, from the AST) + bounded run-time check of the roll-up "
              "contract on the real Collector.__build_time and of instance counts on the real Architecture/Hardware")
 EXPLANATION = (
     "The roll-up postcondition (den(time) = sum over blocks of max over components of the per-Einsum component times, "
@@ -106,6 +107,28 @@ def extra(uni, tier, seed):
     src = ast.unparse(hw)
     out.append(Extra("site/Hardware.__build_level passes the level's count to each local component",
                      "self.__build_component(comp, tree['num'])" in src and "Level(tree['name'], tree['num']" in src, ""))
+    src = ast.unparse(extract.module("teaal/ir/hardware.py").func("Hardware.__build_component"))
+    out.append(Extra("site/Hardware.__build_component hands the level's count to the component constructor",
+                     "class_(name, num_instances, local['attributes'], binding)" in src and "num_instances =" not in src, ""))
+    cm = extract.module("teaal/ir/component.py")
+    src = ast.unparse(cm.func("MemoryComponent.__init__"))
+    out.append(Extra("site/MemoryComponent.__init__ takes bandwidth from the component's own attributes, unscaled",
+                     "self.bandwidth = self._check_attr(attrs, 'bandwidth', int)" in src and src.count("self.bandwidth") == 1
+                     and "super().__init__(name, num_instances, attrs, bindings)" in src, ""))
+    # no subclass overrides the rate getters or rewrites the fields they read
+    bad = []
+    for node in ast.walk(cm.tree):
+        if isinstance(node, ast.ClassDef):
+            for f in node.body:
+                if isinstance(f, ast.FunctionDef):
+                    if f.name in ("get_num_instances", "get_bandwidth") and node.name not in ("Component", "MemoryComponent"):
+                        bad.append("%s.%s overrides" % (node.name, f.name))
+                    for n in ast.walk(f):
+                        if isinstance(n, ast.Attribute) and isinstance(n.ctx, ast.Store) and n.attr in ("num_instances", "bandwidth") \
+                                and not (f.name == "__init__" and node.name in ("Component", "MemoryComponent")):
+                            bad.append("%s.%s writes .%s" % (node.name, f.name, n.attr))
+    out.append(Extra("site/instance count and bandwidth are written only by the verified constructors and read through "
+                     "the verified getters", not bad, str(bad)))
     return out
 
 
